@@ -9,7 +9,7 @@ package main
 //
 // Rule (FLOW): in package manager a function that derives a converter name from a path parameter
 // (strings.TrimSuffix(filepath.Base(p), filepath.Ext(p))) reaches a destructive step on the registered converter —
-// CachedConverter.Reset, a delete from Manager.converters, detachConverterFromTag — only over an edge of a condition
+// CachedConverter.Reset / Remove, a delete from Manager.converters, detachConverterFromTag — only over an edge of a condition
 // that consults the converter's own ExecutablePath().
 
 import (
@@ -22,11 +22,39 @@ import (
 
 func init() {
 	register("C16",
-		"C16-k (FLOW): in package manager a function that derives a converter name from a path parameter (the file name without its extension) reaches a destructive step on the converter registered under that name — CachedConverter.Reset, delete from Manager.converters, detachConverterFromTag — only over an edge of a condition that reads the converter's ExecutablePath(). Events of the watched directory are about files; `foo.txt`, `foo.py~` and `foo.py` all give the name foo, and without the comparison deleting a sibling file removes converter foo with all its output.",
+		"C16-k (FLOW): in package manager a function that derives a converter name from a path parameter (the file name without its extension) reaches a destructive step on the converter registered under that name — CachedConverter.Reset or Remove, delete from Manager.converters, detachConverterFromTag — only over an edge of a condition that reads the converter's ExecutablePath(). Events of the watched directory are about files; `foo.txt`, `foo.py~` and `foo.py` all give the name foo, and without the comparison deleting a sibling file removes converter foo with all its output.",
 		func(p *Prog, r *Res) {
 			const rule = "C16-k converter-addressed-by-its-own-file"
 			r.Rule(rule + ": a name derived from a path is confirmed against the converter's executable before anything is dropped")
 			reset := p.Method("converters", "CachedConverter", "Reset")
+			// further methods of the converter that drop its cache (Remove since #65): they reach cacheFile.Reset
+			cfReset := p.Method("converters", "cacheFile", "Reset")
+			dropsCache := map[*types.Func]string{}
+			for _, g := range p.FnList {
+				if g.Short != "converters" || g.Decl == nil || g.Decl.Recv == nil || g.Body() == nil || recvTypeName(g.Decl.Recv.List[0].Type) != "CachedConverter" {
+					continue
+				}
+				gobj, _ := g.Pkg.TypesInfo.Defs[g.Decl.Name].(*types.Func)
+				if gobj == nil || gobj == reset {
+					continue
+				}
+				for _, c := range callsIn(g.Body()) {
+					fn := p.Callee(g.Pkg, c)
+					if fn == nil {
+						continue
+					}
+					if cfReset != nil && fn.Origin() == cfReset {
+						dropsCache[gobj] = "CachedConverter." + gobj.Name()
+					}
+					if h := p.FnOfObj(fn); h != nil && h.Short == "converters" && h.Body() != nil {
+						for _, c2 := range callsIn(h.Body()) {
+							if fn2 := p.Callee(h.Pkg, c2); fn2 != nil && cfReset != nil && fn2.Origin() == cfReset {
+								dropsCache[gobj] = "CachedConverter." + gobj.Name()
+							}
+						}
+					}
+				}
+			}
 			convFld := p.Field("manager", "Manager", "converters")
 			detach := p.Method("manager", "Manager", "detachConverterFromTag")
 			if reset == nil || convFld == nil {
@@ -96,6 +124,9 @@ func init() {
 						if fn := p.Callee(f.Pkg, c); fn != nil {
 							if fn.Origin() == reset {
 								hit, what = true, "CachedConverter.Reset"
+							}
+							if w, ok := dropsCache[fn.Origin()]; ok {
+								hit, what = true, w
 							}
 							if detach != nil && fn.Origin() == detach {
 								hit, what = true, "detachConverterFromTag"
